@@ -204,7 +204,7 @@ structure NthYMArgs (a : Args) : Prop where
   valid : a.dtstart.Valid
   byweekno : a.byweekno = none
   byeaster : a.byeaster = none
-  bymonthday : a.bymonthday = none
+  monthday_nz : ∀ x ∈ a.bymonthday.getD [], x ≠ 0
   months : ∃ lm, a.bymonth = some lm ∧ lm ≠ [] ∧ ∀ m ∈ lm, 1 ≤ m ∧ m ≤ 12
   weekdays : ∃ l, a.byweekday = some l ∧ l ≠ [] ∧ ∀ w ∈ l, (0 ≤ w.1 ∧ w.1 ≤ 6) ∧ w.2 ≠ 0
 
@@ -264,10 +264,7 @@ theorem nthym_rule (na : NthYMArgs a) (h : construct a = .ok r) : ∃ bh bm bs, 
   obtain ⟨_, _, _, hwd, hnwd⟩ := nthym_nwl na
   refine ⟨bh, bm, bs, ?_⟩
   have hbm : bymonthOf a = a.bymonth.map sortedSet := by unfold bymonthOf; simp [nthym_noDay na]
-  have hmd : monthdayArg a = none := by unfold monthdayArg; simp [nthym_noDay na, na.bymonthday]
-  have hbmd : bymonthdayOf a = [] := by unfold bymonthdayOf; rw [hmd]
-  have hbnd : bynmonthdayOf a = [] := by unfold bynmonthdayOf; rw [hmd]
-  simp [nthRuleOf, hbm, hbmd, hbnd, hwd, hnwd, na.byweekno, na.byeaster]
+  simp [nthRuleOf, hbm, hwd, hnwd, na.byweekno, na.byeaster]
 
 theorem nthym_bymonth (na : NthYMArgs a) (h : construct a = .ok r) : r.bymonth = some (monthsOf a) := by
   obtain ⟨bh, bm, bs, hr⟩ := nthym_rule na h
@@ -293,8 +290,12 @@ theorem nthym_bridge (na : NthYMArgs a) (h : construct a = .ok r) (info : Info) 
   have hfo := fromOrdinal_toOrdinal y m d hy ⟨hm1, hm12, hd1, hd2⟩
   have hnd : Spec.RRule.noDayParts a = noDayParts a := rfl
   have hmonths : Spec.RRule.months a = lm := by unfold Spec.RRule.months; rw [hlm]
-  have hmd : Spec.RRule.monthdays a = [] := by
-    unfold Spec.RRule.monthdays; simp [hnd, nthym_noDay na, na.bymonthday]
+  have hmda : monthdayArg a = a.bymonthday := by unfold monthdayArg; simp [nthym_noDay na]
+  have hmd : Spec.RRule.monthdays a = a.bymonthday.getD [] := by
+    unfold Spec.RRule.monthdays; simp [hnd, nthym_noDay na]
+  have hmcl := monthday_clause_core a (by rw [hmda]; exact na.monthday_nz) d (d - daysInMonth y m - 1)
+    (by omega) (by omega)
+  rw [hmda] at hmcl
   have hwds : Spec.RRule.weekdays a = l := by
     unfold Spec.RRule.weekdays; simp [hnd, nthym_noDay na, hl]
   have hle : l.isEmpty = false := by cases l with | nil => exact absurd rfl hne | cons _ _ => rfl
@@ -332,7 +333,7 @@ theorem nthym_bridge (na : NthYMArgs a) (h : construct a = .ok r) (info : Info) 
   unfold simpleOk Spec.RRule.dateOk
   rw [hfo]
   dsimp only
-  rw [hmonths, hmd, hwds, na.byweekno, na.byeaster, hlm]
+  rw [hmonths, hmd, hwds, na.byweekno, na.byeaster, hlm, hmcl]
   have htn : truthy (none : Option (List Int)) = false := rfl
   have hmn : ∀ w, memO w (none : Option (List Int)) = false := fun _ => rfl
   have htm : truthy (some (sortedSet lm)) = true := by
@@ -358,11 +359,12 @@ theorem nthym_bridge (na : NthYMArgs a) (h : construct a = .ok r) (info : Info) 
   rw [hwk]
   generalize lm.contains m = b1
   generalize (l.isEmpty || _) = b2
+  generalize ((a.bymonthday.getD []).isEmpty || _ || _) = b4
   rcases a.byyearday with _ | (_ | ⟨x, xs⟩)
-  · cases b1 <;> cases b2 <;> rfl
-  · cases b1 <;> cases b2 <;> rfl
+  · cases b1 <;> cases b2 <;> cases b4 <;> rfl
+  · cases b1 <;> cases b2 <;> cases b4 <;> rfl
   · rw [yearday_clause (some (x :: xs))]
-    cases b1 <;> cases b2 <;> simp
+    cases b1 <;> cases b2 <;> cases b4 <;> simp
 
 theorem nthym_cuts (na : NthYMArgs a) (h : construct a = .ok r) : CutsAgree a r := by
   obtain ⟨bh, bm, bs, hr⟩ := nthym_rule na h
